@@ -647,7 +647,9 @@ class ApplicationEntity:
             )
 
         # Set using a copy of the original to play nicely
-        contexts = deepcopy(contexts)
+        #   Each item is copied on its own: the same context listed twice
+        #   has to become two contexts with their own IDs
+        contexts = [deepcopy(cx) for cx in contexts]
 
         # Add the context IDs
         for ii, context in enumerate(contexts):
